@@ -364,16 +364,19 @@ class Session:
             n = len(self.rows)
             lo = a[0] % n
             hi = lo + 1 + a[1] % (n - lo)
-            rng_ = list(range(lo, hi))
+            step = 1 + (a[0] + a[1]) % 3
+            use_range = (a[0] % 2 == 0)
+            rng_ = range(lo, hi, step) if use_range else list(range(lo, hi, step))
             if a[2]:
+                rng_ = list(rng_)
                 bad = rng_ + [n + a[1] % 3]
                 why = self._refused(lambda: self.db.extract_rows(bad), f'extract_rows with position {bad[-1]} of {n}')
                 ctx.log(kind, 'refused', why)
             else:
                 sub = self.db.extract_rows(rng_)
                 tags = self._rows_of(sub.data, 'extract_rows')
-                want = [r['tag'] for r in self.rows][lo:hi] if self.panel is None else None
-                cur = [float(t) for t in self.db.data['tag'].to_list()][lo:hi]
+                want = [r['tag'] for r in self.rows][lo:hi:step] if self.panel is None else None
+                cur = [float(t) for t in self.db.data['tag'].to_list()][lo:hi:step]
                 if tags != cur or (want is not None and tags != want):
                     ctx.fail('I13.extract', f'extract_rows({lo}..{hi - 1}) returned rows {tags}, positions hold {cur}')
                 # the extracted table is a table of its own: transforming it leaves the original intact (checked below
